@@ -37,7 +37,8 @@ def _solver_case(draw, tier, kind):
             "entropy": draw(st.integers(0, 2 ** 31 - 2)), "entropy2": draw(st.integers(0, 2 ** 31 - 2)),
             "perm_seed": draw(st.integers(0, 2 ** 31 - 1)),
             # the replaced rows hold a sample path that has blown up (NaN): row i must not notice
-            "others_nan": draw(st.sampled_from([False, False, False, True]))}
+            "others_nan": draw(st.sampled_from([False, False, False, True])),
+            "wide_scales": draw(st.booleans())}
 
 
 class _SmallGRows(torch.nn.Module):
@@ -139,10 +140,19 @@ def run_case(case):
             return torch.cat([ys, lq_padded], dim=-1)
         return out
 
+    wide = rowdep and logqp and case["kind"] == "perturb" and bool(case.get("wide_scales"))
+    if wide:
+        # the kept row has a small diffusion (1e-4 .. 1e-5 of the others'), the replaced rows a huge one: nothing that is
+        # computed for row i may be scaled by what the other rows hold
+        i_keep = case["row"] % B
+        rs0 = base_sde_.rowscale[:B].clone()
+        rs0[i_keep] = rs0[i_keep] * 1e-5
+        sde_default = with_rowscale(rs0)
     ref = go(y0, mk(case["entropy"]))
     steps = (tm["t1"] - tm["t0"]) / tm["dt"]
     labels = [f"kind={case['kind']}", solve.combo_label(combo), f"batch={B}", f"dtype={spec['dtype']}"] + \
-        (["with_logqp"] if logqp else []) + (["per_sample_conditioning"] if rowdep else [])
+        (["with_logqp"] if logqp else []) + (["per_sample_conditioning"] if rowdep else []) + \
+        (["rows_of_very_different_scale"] if wide else [])
     if case["kind"] == "perturb":
         i = case["row"] % B
         mask = torch.zeros(B, dtype=torch.bool)
@@ -169,8 +179,8 @@ def run_case(case):
         proxy = brownian_tools.make_proxy(shape, dtype, combo["levy"], mixed)
         sde_mix = None
         if rowdep:
-            rs = base_sde_.rowscale[:B]
-            sde_mix = with_rowscale(torch.where(mask, rs, rs * 1.37 + 0.05))
+            rs = rs0 if wide else base_sde_.rowscale[:B]
+            sde_mix = with_rowscale(torch.where(mask, rs, rs * (1e3 if wide else 1.37) + 0.05))
         got = go(y_mix, proxy, sde_mix)
         ok = torch.equal(got[:, i], ref[:, i])
         changed_elsewhere = not torch.equal(got, ref)
